@@ -38,11 +38,14 @@ def canon(dotted: str) -> str:
 
 
 # dropped calls: effect-free on program and ghost state (stated in the evidence as "dropped")
-DROPPED_PREFIXES = ("logging.", "warnings.warn", "tqdm.", "builtins.print")
+DROPPED_PREFIXES = ("logging.", "warnings.warn", "warnings.filterwarnings", "warnings.simplefilter", "tqdm.", "builtins.print")
 
 
 def call(ex, f: VLib, args, kwargs, fr):
     name = f.name
+    if name in ("warnings.catch_warnings", "numpy.errstate"):
+        ex.dropped.add(name)
+        return VOpaque("warnings_cm", None, {})
     if name.startswith("repo:"):
         raise Unsupported(f"call of module {name}")
     for prefix, ph in ex.cfg.lib_prefix.items():
@@ -248,6 +251,12 @@ def with_lib(ex, cm, item, body, fr):
     h = ex.cfg.lib_overrides.get(("with", getattr(cm, "kind", None) or getattr(cm, "name", None)))
     if h is not None:
         return h(ex, cm, item, body, fr)
+    if isinstance(cm, VOpaque) and cm.kind == "warnings_cm":
+        # warnings.catch_warnings() / np.errstate(): save and restore the warning filters / floating-point error mode; neither
+        # is observable by the contracts (warnings are dropped), the body runs as it stands and exceptions propagate
+        if item.optional_vars is not None:
+            ex.assign(item.optional_vars, NONE, fr)
+        return ex.exec_block(body, fr)
     raise Unsupported(f"with-statement on {cm!r}")
 
 
